@@ -107,17 +107,21 @@ Record stream := mkStream {
   seen : list frm;                (* frames the monitor consumed since the storage's last start *)
   aborted : bool;                 (* writes were refused / a stop was forced since the storage's last start (abort, failed start) *)
   cam_failed : bool;              (* the camera's frame call failed since the storage's last start *)
+  acq_on : bool;                  (* video_sink_start has re-enabled writes since the storage's last start *)
+  src_on : bool;                  (* the source thread of this acquisition has been created *)
+  goal : N;                       (* max_frame_count when the source thread was created *)
+  mon_fresh : bool;               (* the monitor reader was registered and drained when the storage was last started *)
   cam_starts : nat; cam_stops : nat; sto_starts : nat; sto_stops : nat  (* device-call counters (life cycle) *)
 }.
 #[export] Instance etaStream : Settable _ := settable! mkStream
   <valid; maxn; cam; cam_st; sto; sto_st; cam_tag; cam_next; log; accepting; sink_reg; sink_cur; sink_map;
    mon_reg; mon_cur; mon_map; src_stopping; abort_win; sink_stopping; filt_stopping; src_running; sink_running;
-   filt_running; s_pc; k_pc; f_pc; c_stop; c_start; iframe; base; delivered; stored; sto_failed; seen; aborted; cam_failed;
+   filt_running; s_pc; k_pc; f_pc; c_stop; c_start; iframe; base; delivered; stored; sto_failed; seen; aborted; cam_failed; acq_on; src_on; goal; mon_fresh;
    cam_starts; cam_stops; sto_starts; sto_stops>.
 
 Definition init_stream : stream :=
   mkStream false 0 None HAwait None HAwait 0 0 [] true false 0 None false 0 None
-           false false false false false false false SOff KOff FOff CNone TNone 0 0 [] [] false [] false false 0 0 0 0.
+           false false false false false false false SOff KOff FOff CNone TNone 0 0 [] [] false [] false false false false 0 false 0 0 0 0.
 
 (* ------------------------------------------------------------------------------------------------ helpers *)
 Definition seg (l : list frm) (from n : nat) : list frm := firstn n (skipn from l).
@@ -126,6 +130,9 @@ Definition spc_idle (p : spc) : bool := match p with SOff | SDone => true | _ =>
 Definition kpc_idle (p : kpc) : bool := match p with KOff | KDone => true | _ => false end.
 Definition fpc_idle (p : fpc) : bool := match p with FOff | FDone => true | _ => false end.
 Definition workers_idle (s : stream) : bool := spc_idle (s_pc s) && kpc_idle (k_pc s) && fpc_idle (f_pc s).
+
+(* no worker alive and the client is not inside acquire_start for this stream: where configure / shutdown act *)
+Definition quiet (s : stream) : bool := workers_idle s && match c_start s with TNone => true | _ => false end.
 
 Definition guard (b : bool) (s : stream) : option stream := if b then Some s else None.
 
@@ -145,25 +152,27 @@ Definition step_stream (s : stream) (a : actor) (e : sev) : option stream :=
   match a, e with
   (* ---------------- devices: open / close / set (client, outside acquisitions) *)
   | ACli, DOpenCam i =>
-      guard (match cam s with None => true | _ => false end && workers_idle s) (s <| cam := Some i |> <| cam_st := HAwait |>)
+      guard (match cam s with None => true | _ => false end && quiet s) (s <| cam := Some i |> <| cam_st := HAwait |>)
   | ACli, DCloseCam i =>
-      guard (optN_eqb (cam s) i && workers_idle s) (s <| cam := None |> <| cam_st := HAwait |>)
+      guard (optN_eqb (cam s) i && quiet s) (s <| cam := None |> <| cam_st := HAwait |>)
   | ACli, DSetCam i =>
-      guard (optN_eqb (cam s) i && workers_idle s)
+      guard (optN_eqb (cam s) i && quiet s)
             (s <| cam_st := match cam_st s with HRunning => HRunning | _ => HArmed end |>)
   | ACli, DOpenSto i =>
-      guard (match sto s with None => true | _ => false end && workers_idle s) (s <| sto := Some i |> <| sto_st := HAwait |>)
+      guard (match sto s with None => true | _ => false end && quiet s) (s <| sto := Some i |> <| sto_st := HAwait |>)
   | ACli, DCloseSto i =>
-      guard (optN_eqb (sto s) i && workers_idle s) (s <| sto := None |> <| sto_st := HAwait |>)
+      guard (optN_eqb (sto s) i && quiet s) (s <| sto := None |> <| sto_st := HAwait |>)
   | ACli, DSetSto i =>
-      guard (optN_eqb (sto s) i && workers_idle s) (s <| sto_st := HArmed |>)
+      guard (optN_eqb (sto s) i && quiet s) (s <| sto_st := HArmed |>)
   (* ---------------- acquire_start, stream part *)
   | ACli, DStoStart i ok =>
       guard (optN_eqb (sto s) i && hst_eqb (sto_st s) HArmed && workers_idle s
              && match c_start s with TBegin => true | _ => false end)
             (if ok then s <| sto_st := HRunning |> <| base := length (log s) |> <| stored := [] |> <| seen := [] |>
                           <| sto_failed := false |> <| aborted := false |> <| cam_failed := false |>
-                          <| delivered := [] |> <| sto_starts ::= S |> <| c_start := TStoStarted |>
+                          <| acq_on := false |> <| src_on := false |>
+                          <| mon_fresh := mon_reg s && Nat.eqb (mon_cur s) (length (log s)) |>
+                          <| sto_starts ::= S |> <| c_start := TStoStarted |>
              else s <| sto_st := HAwait |> <| c_start := TFailed |>)
   | ACli, Spawn RSink =>
       guard (kpc_idle (k_pc s) && hst_eqb (sto_st s) HRunning && match c_start s with TRegDone => true | _ => false end)
@@ -180,7 +189,7 @@ Definition step_stream (s : stream) (a : actor) (e : sev) : option stream :=
   | ACli, Spawn RSrc =>
       guard (spc_idle (s_pc s) && hst_eqb (cam_st s) HRunning && match c_start s with TCamStarted => true | _ => false end)
             (s <| src_stopping := false |> <| abort_win := false |> <| src_running := true |> <| s_pc := SLoop |>
-               <| iframe := 0%N |> <| c_start := TDone |>)
+               <| iframe := 0%N |> <| src_on := true |> <| goal := maxn s |> <| c_start := TDone |>)
   (* ---------------- source thread *)
   | ASrc, WMapEnter =>
       guard (match s_pc s with SLoop => true | _ => false end && negb (src_stopping s) && N.ltb (iframe s) (maxn s))
@@ -290,7 +299,6 @@ Definition step_stream (s : stream) (a : actor) (e : sev) : option stream :=
   | ASink, CbStopSource =>
       match k_pc s with
       | KErrCb k => Some (s <| src_stopping := true |> <| k_pc := KErrAccept k |>)
-      | KFlushMapped k => guard (negb (hst_eqb (sto_st s) HRunning)) (s <| src_stopping := true |> <| k_pc := KErrAccept k |>)
       | _ => None
       end
   | ASink, Accept b =>
@@ -306,7 +314,7 @@ Definition step_stream (s : stream) (a : actor) (e : sev) : option stream :=
       if b then
         match c_stop s, c_start s with
         | CWaitJoin, _ => guard (workers_idle s) (s <| accepting := true |> <| c_stop := if mon_reg s then CFlush0 else CStopped |>)
-        | CNone, TStoStarted => Some (s <| accepting := true |> <| c_start := TAccepted |>)      (* video_sink_start *)
+        | CNone, TStoStarted => Some (s <| accepting := true |> <| acq_on := true |> <| c_start := TAccepted |>)   (* video_sink_start *)
         | _, _ => None
         end
       else
@@ -325,7 +333,7 @@ Definition step_stream (s : stream) (a : actor) (e : sev) : option stream :=
   | ACli, RUnmap RdSink c =>
       guard (match c_start s with TRegMapped => true | _ => false end && Nat.eqb c 0) (s <| c_start := TRegDone |>)
   | ACli, DStoStop i =>                (* storage_close stops a device that is still running *)
-      guard (optN_eqb (sto s) i && hst_eqb (sto_st s) HRunning && workers_idle s) (s <| sto_st := HArmed |> <| sto_stops ::= S |>)
+      guard (optN_eqb (sto s) i && hst_eqb (sto_st s) HRunning && quiet s) (s <| sto_st := HArmed |> <| sto_stops ::= S |>)
   (* ---------------- the monitor reader (acquire_map_read / acquire_unmap_read, and acquire_stop's flush) *)
   | ACli, MonMapRefused => guard (match mon_map s with Some _ => true | None => false end) s
   | ACli, RMapEnter RdMon =>
@@ -385,10 +393,13 @@ Definition started_ok (s : stream) : bool := negb (valid s) || match c_start s w
    the acquisition is aborted (acquire_abort) *)
 Definition fail_start (s : stream) : stream :=
   if valid s then
-    begin_stop true (if src_running s then s else s <| filt_stopping := true |> <| sink_stopping := true |>)
+    begin_stop true ((if src_running s then s else s <| filt_stopping := true |> <| sink_stopping := true |>)
+                       <| c_start := match c_start s with TDone => TDone | _ => TFailed end |>)
   else s.
 Definition is_start_failure (e : sev) : bool :=
   match e with DStoStart _ false | DCamStart _ false _ => true | _ => false end.
+Definition all_closed (s : stream) : bool :=
+  match cam s, sto s with None, None => true | _, _ => false end.
 Definition hmax (a b : hst) : hst :=
   match a, b with HRunning, _ | _, HRunning => HRunning | HArmed, _ | _, HArmed => HArmed | _, _ => HAwait end.
 
@@ -396,6 +407,10 @@ Definition step (y : sys) (ev : event) : option sys :=
   match ev with
   | EvS i a e =>
       let s := if i then st1 y else st0 y in
+      (* acquire_start starts stream 1 only after stream 0 *)
+      if i && match in_call y with InStart => negb (started_ok (st0 y)) | _ => false end
+           && match a, c_start s with ACli, (TBegin | TStoStarted | TAccepted | TRegEnter | TRegMapped | TRegDone | TSinkUp | TFiltUp | TCamStarted) => true | _, _ => false end
+      then None else
       match step_stream s a e with
       | None => None
       | Some s' =>
@@ -462,6 +477,7 @@ Definition step (y : sys) (ev : event) : option sys :=
       match in_call y with
       | InShutdown =>
           if stopped_ok (st0 y) && stopped_ok (st1 y) && workers_idle (st0 y) && workers_idle (st1 y)
+             && all_closed (st0 y) && all_closed (st1 y)
           then Some (y <| in_call := InIdle |> <| api := HAwait |> <| st0 ::= end_stop |> <| st1 ::= end_stop |>)
           else None
       | _ => None
